@@ -997,17 +997,27 @@ def _ev_summary(ev):
 
 
 def replay_failures(doc, oracles):
-    """--replay: re-run the recorded cases on the real runner, print what the oracles say."""
+    """--replay: re-run the recorded cases on the real runner (current $ADAPTIVE_REPO), print what the
+    oracles say and whether the model (inside Coq) still accepts the trace."""
+    from .core import WORK, coqc_file, split_evals
     bad = 0
     items = doc.get("failing_inputs", []) + [b for b in doc.get("no_longer_checks", []) if isinstance(b.get("detail"), dict)]
-    for f in items:
+    d = WORK / "replay_runner"
+    d.mkdir(parents=True, exist_ok=True)
+    for i, f in enumerate(items):
         r = f.get("replay") or f.get("detail")
         if not r or "spec" not in r:
             continue
         rec = rerun(r)
         errs = [e for fn in oracles for e in fn(rec)]
-        print("replayed", spec_summary(rec.spec), "->", errs[:3] or "oracle silent", "; ended with", repr(rec.exc)[:80])
-        bad += bool(errs)
+        vf = d / f"replay_{i}.v"
+        vf.write_text(PREAMBLE + "\nDefinition c : case :=\n" + case_term(rec) + ".\nEval vm_compute in (check c).\n")
+        rc, out, _ = coqc_file(vf, 300)
+        parts = split_evals(out) if rc == 0 else []
+        model = "model agrees" if (parts and "None" in parts[0]) else \
+            ("model DISAGREES at " + " ".join(parts[0].split()) if parts else f"coqc failed: {out[-200:]}")
+        print("replayed", spec_summary(rec.spec), "->", errs[:3] or "oracle silent", ";", model, "; ended with", repr(rec.exc)[:80])
+        bad += bool(errs) or "agrees" not in model
     return 1 if bad else 0
 
 
